@@ -149,6 +149,24 @@ def scenario_for(seed, index, tier):
         return sc
     rng = make_rng('scenario', ID, seed, index)
     sc = base_scenario(rng, small=rng.random() < 0.3)
+    if rng.random() < 0.06:
+        # a NEGATIVE threshold in force: it cannot arrive over the wire (the
+        # set-compression VarInt is read unsigned), so it is put in force
+        # through the connection's options once the play state is reached;
+        # the peer switches to the data-length format (never compressing)
+        # at the same quiescent moment
+        sc = base_scenario(rng, small=rng.random() < 0.5)
+        sc['threshold'] = rng.choice([-1, -1, -2, -100])
+        sc['poke_negative'] = True
+        login = [s_ for s_ in sc['server']['conns'][0]['login']
+                 if s_[0] != 'compress']
+        ids_ = ids_for(sc['proto'])
+        sc['items'] = gen_items(rng, ids_, 64, len(sc['items']),
+                                big=False)
+        sc['server']['conns'][0] = {'login': login,
+                                    'play': [['await']] + sc['items']}
+        sc['variant'] = 'negative-threshold-in-force'
+        return sc
     if rng.random() < 0.2:
         # the same Connection is used for a second session with its own
         # framing mode: nothing of the first may leak into it
@@ -300,6 +318,13 @@ def _execute(scenario, tape, want_world=False):
                     c['connect'] = w.api('connect', conn.connect)
                 w.wait_until(lambda: c['in_play'] or c['errs'] or
                              S[0]['errs'], 30000000)
+                if sc.get('poke_negative') and not c['errs']:
+                    with conn._write_lock:
+                        conn.options.compression_threshold = sc['threshold']
+                        conn.options.compression_enabled = True
+                    app0 = w.server.apps[k]
+                    w.sim.after(0, lambda: w.server.release(
+                        app0, sc['threshold']), 'release')
                 if not c['errs']:
                     for wr in sc['writes']:
                         if wr[0] == 'plugin':
@@ -475,9 +500,9 @@ def check(scenario, w, st, res, exp_in, exp_out, ids, k=0, top=None):
                 V.append(('C01/uncompressed-above-threshold',
                           {'payload': meta['payload_len'], 'T': t}))
                 break
-        elif meta['data_len']:
-            V.append(('C01/compressed-with-negative-threshold', None))
-            break
+        # negative thresholds: pyCraft's writer treats only -1 as "never
+        # compress"; the statement demands the round trip, not a particular
+        # choice, so nothing is asserted about data_len here
     ob()
     if not st.get('quiet'):
         V.append(('C01/networking-thread-alive', None))
